@@ -205,9 +205,13 @@ func (e *env) fresh(dt core.DutyType) uint64 {
 		e.exitEp--
 		return e.exitEp * e.cl.Chain.SlotsPerEpoch
 	}
+	// even slots only: field alterations move a slot by +1, and the validator API keys a submission by
+	// the slot inside the object, so an altered-but-still-valid object must never land on a duty that
+	// a later control uses
 	s := e.curSlot() + 1 + uint64(verifrt.Intn("w", 2))*e.cl.Chain.SlotsPerEpoch
+	s += s % 2
 	for e.used[core.Duty{Slot: s, Type: dt}] {
-		s++
+		s += 2
 	}
 	e.used[core.Duty{Slot: s, Type: dt}] = true
 	return s
@@ -222,7 +226,7 @@ func body(c *kernel.Ctx) {
 	n := []int{4, 4, 4, 3, 5}[verifrt.Intn("cfg", 5)]
 	spe := uint64(16)
 	cfg := cluster.Config{N: n, Validators: 2, SlotsPerEpoch: spe, SlotDuration: 12 * time.Second,
-		StartSlot: spe*50 + uint64(verifrt.Intn("cfg", 16)), AggSigDBV2: verifrt.Intn("cfg", 2) == 1}
+		StartSlot: spe*2000 + uint64(verifrt.Intn("cfg", 16)), AggSigDBV2: verifrt.Intn("cfg", 2) == 1}
 	cl := cluster.New(ctx, c.T, cfg)
 	e := &env{c: c, cl: cl, ctx: ctx, used: map[core.Duty]bool{}, matrix: map[string][]string{}, stats: map[string]int{}}
 	e.cnt.exSub, e.cnt.storedExt = map[core.Duty]int{}, map[core.Duty]int{}
